@@ -63,6 +63,17 @@ def main():
                  "the implementation; (4) KNOWN_FINDINGS.json replays. See DESIGN.md.",
     }
     json.dump(m, open(os.path.join(V, "MANIFEST.json"), "w"), indent=1)
+    # KNOWN_FINDINGS.json = the per-property fragments findings/<id>.json merged into one committed file
+    allf = []
+    fdir = os.path.join(V, "findings")
+    for f in sorted(os.listdir(fdir)):
+        if f.endswith(".json"):
+            allf += json.load(open(os.path.join(fdir, f))).get("findings", [])
+    json.dump({"comment": "Committed list of genuine defects of /repo, merged from findings/<id>.json by harness/mk_manifest.py. "
+               "status=known: still present, reported as KNOWN-FINDING and not as a violation (matched through the "
+               "property module's classify()); status=fixed: repaired by the named fix: commit, its replay is a regression "
+               "case that raises a VIOLATION if it fails again. Never written at run time.",
+               "findings": allf}, open(os.path.join(V, "KNOWN_FINDINGS.json"), "w"), indent=1)
 
 
 if __name__ == "__main__":
